@@ -81,7 +81,7 @@ def jacobian_radius(md, model, prim):
     rad = analytic_radius(md, prim)
     if name in ("convection", "burgers"):
         comps = [q[0]]
-        scales = [np.maximum(np.abs(q[0]), 1e-3)]
+        scales = [np.where(q[0] != 0, np.abs(q[0]), 1e-3)]       # relative to the local value: the Burgers flux switches branch at u = 0
     elif name == "shallowwater":
         comps = [q[0], q[1]]
         scales = [q[0], q[0] * rad]
